@@ -4,7 +4,7 @@
    any field with 2 <> 0): f(x+u) = f(x) + L u + B(u,u)/2, L linear, B symmetric bilinear -- with
    B(h_i e_i, h_j e_j) = h_i h_j Q_ij this is "entry (i,j) equals Q_ij after dividing by h_i h_j". *)
 From Coq Require Import List Field.
-Require Import NDT.Arith.Ops NDT.Model.Pipeline NDT.Model.ArrayCall NDT.Model.HessStencil NDT.Theory.ArrayCallTheory NDT.Theory.HessianTheory.
+Require Import NDT.Arith.Ops NDT.Model.Pipeline NDT.Model.ArrayCall NDT.Model.HessStencil NDT.Theory.ArrayCallTheory NDT.Theory.HessianTheory NDT.Theory.HessComplex.
 Import ListNotations.
 
 Theorem C04_exactly_symmetric {A} (O : Ops A) tf thr c8 c15 ch der hs rr n i j d : i < n -> j < n ->
@@ -84,4 +84,12 @@ Theorem C04_model_hessdiag a :
 Proof.
   repeat split; [eapply hd_central2_quad | eapply hd_central_even_quad | eapply hd_forward_quad | eapply hd_backward_quad]; eassumption.
 Qed.
+
+(* The complex-step and multicomplex quotients, on the complexification of the quadratic (the polynomial extension, written out in
+   Theory/HessComplex.v: Im f(x + a + i b) = L b + B(a, b); imag12 of f(x + i b + j c) = B(b, c)) *)
+Theorem C04_complex_hessian a b :
+  rdiv (rsub (f_im R radd V L B b a) (f_im R radd V L B (vneg b) a)) TWO = B a b.
+Proof. eapply complex_hessian_id; eassumption. Qed.
+Theorem C04_multicomplex_hessian a b : f_im12 R V B a b = B a b.
+Proof. reflexivity. Qed.
 End Quadratic.
